@@ -29,7 +29,7 @@ FIDDLE_SRC = os.path.join(os.path.dirname(os.path.abspath(fdl.__file__)), '_src'
 OPCODE_FILES = ('history.py', 'building.py', 'signatures.py',
                 'reraised_exception.py')
 NAMES = {'n0': ['x', 'y', 'z'], 'n1': ['y'], 'N2': ['x', 'k'],
-         'N3': ['x', 'y'], 'n4': [], 'n5': ['x']}
+         'N3': ['x', 'y'], 'n4': [], 'n5': ['x'], 'n6': ['x', 'y', 'k']}
 POSITIONAL_FNS = ('n1', 'n4')
 # CPython 3.12.1 segfaults when f_trace_opcodes is set while other threads are
 # parked inside trace callbacks (reproduced here); opcode granularity is off.
@@ -134,9 +134,13 @@ def gen_thread(rng, t, behav, max_ops, force_raise=False):
         depth = max(0, depth - 1)
     elif r < 0.68:
       ops.append({'op': 'build', 'c': c})
-    elif r < 0.76:
-      ops.append({'op': 'deepcopy', 'c': c})
+    elif r < 0.73:
+      ops.append({'op': rng.choice(['deepcopy', 'deepcopy', 'copy', 'pickle']), 'c': c})
       fn_of.append(fn)
+    elif r < 0.76:
+      arg = rng.choice(NAMES[fn]) if NAMES[fn] else 0
+      ops.append({'op': rng.choice(['add_tag', 'add_tag', 'clear_tags']),
+                  'c': c, 'arg': arg, 'tag': rng.choice(['T0', 'T1', 'U0'])})
     elif r < 0.82:
       ops.append({'op': 'eq', 'c': c, 'd': rng.randrange(len(fn_of))})
     elif r < 0.90:
